@@ -26,21 +26,26 @@ FORM = ('E (exact runs with dyadic coefficients k/8, real and Gaussian-rational,
         'no sampling of words) -- by C07_both_paths_agree both build paths then denote the same operator for that input; the same walk '
         'comparison is applied to the optimized implementation graph; (4) the implementation operator maps (2x2 matrices, 23 Kronecker '
         'products and the SpinMolecularOID numbering) equal the letters of Model/MolFormula.v. '
-        'Gauge cases with an exactly representable unitary: see PARTIAL (d). Symbolic form S is replaced by the Coq-internal symbolic '
-        'comparison of C07_mol_formula_bounded_partial (all coefficient values), which needs no run of the implementation.')
+        'Gauge cases with an exactly representable unitary: see PARTIAL (d). Symbolic form S is replaced by the all-L theorems '
+        'C07_mol_formula_all_L / C07_spin_formula_all_L (all coefficient values, every L), which need no run of the implementation.')
 TRUSTED = ['hand-written Gallina mirror Model/Molecular.v of the optimized chain enumerations, tied to the code by exact agreement of the chain list on every case',
            'Model/MolFormula.v: the second-quantised formula as sitewise products of Jordan-Wigner words (string to the right) -- the specification; '
            'its operator table is kernel-checked against the 2x2 matrices and the matrices against the implementation opmap per run',
            'C05 development (Model/FromOpchains.v, Model/OpGraph.v den / is_consistent_fuel, Proofs/DenRev_C05.v linked)',
            'harness/molcap.py (capture by attribute wrapping, exact rational emitters); harness/hamref.py (independent Fock-space reference, search only)']
-PARTIAL = ('proved for ALL L and all coefficient functions over any cring: every graph the model of from_opchains returns for the enumerated chain '
-           'list (any cover oracle) is linked and denotes the chain list; with the proved vertex-cover model the spinless optimized construction '
-           'SUCCEEDS for every L >= 1 unless every chain coefficient vanishes (C07_mol_opt_total); length, well-formedness, lattice fit and charge '
-           'balance of every enumerated spinless chain; soundness of the walk-based translation validation for any graph. BOUNDED in L but for all '
-           'coefficient values over every cring (kernel vm_compute of a symbolic multiset comparison): chain list = second-quantised formula for '
-           'L <= 10 (spinless) and L <= 6 (spin), hence optimized graph = formula there (C07_mol_exact_partial, C07_spin_exact_partial, the latter '
-           'including that to_spin_opchain never raises and success of the spin construction for L <= 6). NOT proved: the formula identity '
-           'beyond that range; well-formedness/success of the spin enumeration beyond L = 6; everything about the explicit constructions (not '
+PARTIAL = ('proved for ALL L and all coefficient functions over any cring (no hypothesis on the value of half): every graph the model of '
+           'from_opchains returns for the enumerated chain list (any cover oracle) is linked and denotes the chain list; chain list = '
+           'second-quantised formula on EVERY word for EVERY L, spinless (C07_mol_formula_all_L) and spin orbitals '
+           '(C07_spin_formula_all_L), by the normal form of Jordan-Wigner products for every mode count (C07_jw_hop_word, C07_jw_int_word: '
+           'thirteen relative orders of i<j, k<l, five chain shapes, signs + - - + of the four orderings = the antisymmetrisation gint; '
+           'C07_jw_pauli), a regrouping of the double sums by unordered pairs, and for spin the reduction to 2L modes with spin-diagonal '
+           'coefficients read through the site pairing (C07_to_spin_word); to_spin_opchain raises on no enumerated chain and every spin '
+           'chain is well formed for every L (C07_spin_skels_wf_all_L); hence optimized graph = formula whenever from_opchains returns '
+           '(C07_mol_opt_formula, C07_spin_mol_opt_formula) and, with the proved vertex-cover model, both optimized constructions SUCCEED '
+           'and denote the formula for every L >= 1 unless every chain coefficient vanishes (C07_mol_exact, C07_spin_exact); length, '
+           'well-formedness, lattice fit and charge balance of every enumerated spinless chain; soundness of the walk-based translation '
+           'validation for any graph. The former bounded theorems (kernel vm_compute of a symbolic multiset comparison, L <= 10 / 6) are '
+           'kept and now subsumed. NOT proved: everything about the explicit constructions (not '
            'modelled: validated per case in Coq on the graph the implementation built, L = 4..6 quick / ..7 thorough spinless, 2..3 quick / ..5 '
            'thorough spin, numeric dyadic coefficients, i.e. sampled in the coefficients, all words); is_consistent levels / length of the '
            'optimized graph (evaluated per case). (d) gauge matrices: nothing proved; for gauge cases with L <= 5 an exactly representable '
